@@ -337,22 +337,29 @@ impl std::fmt::Display for Doc {
     }
 }
 
+/// Short form of a document stops at the end of the first paragraph of every piece of text and
+/// resumes once the outermost inline block containing it ends - a paragraph might end inside of
+/// a nested inline block (see [`Doc::doc`]) so nesting is tracked at all times
 #[derive(Debug, Clone, Copy, Default)]
-struct Skip(usize);
+struct Skip {
+    depth: usize,
+    skipping: bool,
+}
 impl Skip {
     fn enabled(self) -> bool {
-        self.0 > 0
+        self.skipping
     }
     fn enable(&mut self) {
-        self.0 = 1;
+        self.skipping = true;
     }
     fn push(&mut self) {
-        if self.0 > 0 {
-            self.0 += 1;
-        }
+        self.depth += 1;
     }
     fn pop(&mut self) {
-        self.0 = self.0.saturating_sub(1);
+        self.depth = self.depth.saturating_sub(1);
+        if self.depth == 0 {
+            self.skipping = false;
+        }
     }
 }
 
